@@ -280,3 +280,67 @@ func ZZ_C19_canaryCmds() {
 	nondet.Reach("C19.validate-edited", cmd == "validate" && edited)
 	nondet.Reach("C19.fail", cmd == "fail" && state == "canary")
 }
+
+// ZZ_C19_unpauseOutlivesTheCause: "unpause [leads] back to Canary" — and the canary stays there.  The
+// canary was paused automatically because its pod keeps restarting; the cause has not gone away
+// when the user runs `canary unpause` (that is what the command is for: "I have seen it, go on").
+// After the command both controllers run for three rounds (canary replica-set sync, then
+// ExtendedDaemonSet reconcile, one minute apart): from the first round on the state is Canary, the
+// replica set is not paused again, and the annotations the command wrote are still there.
+func ZZ_C19_unpauseOutlivesTheCause() {
+	c, _ := zzScenario("auto-paused")
+	rsB := c.ERS[1]
+	// the crash-looping canary pod on node0, and the active pods
+	mk := func(name, node, rs, hash string, restarts int32) *corev1.Pod {
+		p := &corev1.Pod{ObjectMeta: metav1.ObjectMeta{Name: name, Namespace: "ns", CreationTimestamp: metav1.NewTime(nondet.Base().Add(-10 * time.Minute)),
+			Labels:      map[string]string{"app": "agent", v1alpha1.ExtendedDaemonSetNameLabelKey: "foo", v1alpha1.ExtendedDaemonSetReplicaSetNameLabelKey: rs},
+			Annotations: map[string]string{v1alpha1.MD5ExtendedDaemonSetAnnotationKey: hash}},
+			Spec:   corev1.PodSpec{NodeName: node},
+			Status: corev1.PodStatus{Phase: corev1.PodRunning, Conditions: []corev1.PodCondition{{Type: corev1.PodReady, Status: corev1.ConditionTrue}}}}
+		st := metav1.NewTime(nondet.Base().Add(-10 * time.Minute))
+		p.Status.StartTime = &st
+		cs := corev1.ContainerStatus{Name: "agent", RestartCount: restarts}
+		if restarts > 0 {
+			cs.LastTerminationState.Terminated = &corev1.ContainerStateTerminated{Reason: "Error", ExitCode: 1, FinishedAt: metav1.NewTime(nondet.Base().Add(-2 * time.Minute))}
+		}
+		p.Status.ContainerStatuses = []corev1.ContainerStatus{cs}
+		return p
+	}
+	restarts := nondet.Int32("canaryPod.restarts", 3, 4) // autoPause.maxRestarts defaults to 2, autoFail.maxRestarts to 5
+	c.Pods = append(c.Pods, mk("foo-b-x", "node0", "foo-b", rsB.Spec.TemplateGeneration, restarts), mk("foo-a-y", "node1", "foo-a", c.ERS[0].Spec.TemplateGeneration, 0))
+
+	err := (&pauseOptions{client: c, IOStreams: zzIO, userNamespace: "ns", userExtendedDaemonSetName: "foo", pauseStatus: cmdUnpause}).run()
+	nondet.Assert("C19.unpause-sticks.command-accepted", err == nil)
+	if err != nil {
+		return
+	}
+	written := zzStored(c).DeepCopy()
+	rsRec, _ := erscontroller.NewReconciler(erscontroller.ReconcilerOptions{}, c, c.Scheme(), logr.Logger{}, &fakeapi.Recorder{})
+	for round := 0; round < 3; round++ {
+		_, rsErr := rsRec.Reconcile(context.TODO(), reconcile.Request{NamespacedName: types.NamespacedName{Namespace: "ns", Name: "foo-b"}})
+		edsErr := zzReconcileEDS(c)
+		nondet.Assert("C19.unpause-sticks.noerror", rsErr == nil && edsErr == nil)
+		final := zzStored(c)
+		nondet.Assert("C19.unpause-sticks.state-canary", final.Status.State == v1alpha1.ExtendedDaemonSetStatusStateCanary)
+		pausedAgain := false
+		for _, cd := range c.ERS[1].Status.Conditions {
+			if cd.Type == v1alpha1.ConditionTypeCanaryPaused && cd.Status == corev1.ConditionTrue {
+				pausedAgain = true
+			}
+		}
+		nondet.Assert("C19.unpause-sticks.replicaset-not-paused-again", !pausedAgain)
+		nondet.Assert("C19.unpause-sticks.annotations-kept",
+			final.Annotations[v1alpha1.ExtendedDaemonSetCanaryUnpausedAnnotationKey] == written.Annotations[v1alpha1.ExtendedDaemonSetCanaryUnpausedAnnotationKey] &&
+				final.Annotations[v1alpha1.ExtendedDaemonSetCanaryPausedAnnotationKey] == written.Annotations[v1alpha1.ExtendedDaemonSetCanaryPausedAnnotationKey])
+		// one minute passes
+		for _, rs := range c.ERS {
+			for i := range rs.Status.Conditions {
+				cd := &rs.Status.Conditions[i]
+				cd.LastUpdateTime = metav1.NewTime(cd.LastUpdateTime.Add(-time.Minute))
+				cd.LastTransitionTime = metav1.NewTime(cd.LastTransitionTime.Add(-time.Minute))
+			}
+		}
+	}
+	nondet.Observe("state", string(zzStored(c).Status.State))
+	nondet.Reach("C19.unpause-sticks.done", zzStored(c).Status.State == v1alpha1.ExtendedDaemonSetStatusStateCanary)
+}
